@@ -23,7 +23,7 @@ use crate::util::*;
 pub const PROP: Prop = Prop {
     id: "C03",
     level: "exploration",
-    rule: "(a) every byte string of length <= 2 (quick) / <= 3 (thorough) under 8 representative plus seeded parser option sets; (b) token-alphabet sequences, (c) mutations of printed text, (d) string literals from escape pieces and arbitrary bytes, each under sampled option sets (all 1536 reachable), three sources, value and datum API, single-shot and iterated with a cap of len+2 calls - all in-process under catch_unwind; (e) pathological shapes in child processes on a 2 MiB stack: n = 10^3..10^6 repetitions of every opener ( [ #( ' ` , ,@ '(a . ' #u8( \" \"\\ #\\ ; and generated mixtures, unterminated and well-formed, plus hundreds of over-deep groups in one iterated stream followed by a shallow probe datum; (f) well-formed nesting of depth 1..100 through every nesting construct and mixtures must be accepted, depth >= 200 must be rejected. non-trivial = the input is not accepted as a single atom; every child case counts; distinct by digest of (input or shape, options, api)",
+    rule: "(a) every byte string of length <= 2 (quick) / <= 3 (thorough) under 8 representative plus seeded parser option sets; (b) token-alphabet sequences, (c) mutations of printed text, (d) string and character literals in every escape spelling of both syntaxes with code points at every boundary of the scalar-value range (surrogates, 10FFFF, 110000, 2^32-1), truncated and with trailing junk, and arbitrary bytes, each under sampled option sets (all 1536 reachable), three sources, value and datum API, single-shot and iterated with a cap of len+2 calls - all in-process under catch_unwind; (e) pathological shapes in child processes on a 2 MiB stack: n = 10^3..10^6 repetitions of every opener ( [ #( ' ` , ,@ '(a . ' #u8( \" \"\\ #\\ ; and generated mixtures, unterminated and well-formed, plus hundreds of over-deep groups in one iterated stream followed by a shallow probe datum; (f) well-formed nesting of depth 1..100 through every nesting construct and mixtures must be accepted, depth >= 200 must be rejected. non-trivial = the input is not accepted as a single atom; every child case counts; distinct by digest of (input or shape, options, api)",
     assumptions: &[
         "the documented recursion limit is 128; depths between 101 and 199 are not asserted either way",
         "a child killed by a signal is an abort (violation); a child exceeding the 60 s watchdog is reported as inconclusive, never as a violation",
@@ -99,7 +99,9 @@ pub fn shape_input(s: &Shape) -> Vec<u8> {
 fn drive_shape(s: &Shape) -> Json {
     let input = shape_input(s);
     let q = QOpt::from_index(s.q).to_lexpr();
-    let cap = 40_000usize;
+    // every call consumes at least one byte or reports the end (C12), so this
+    // many calls always reach the end of the input
+    let cap = input.len() + 10;
     let mut oks = 0usize;
     let mut errs = 0usize;
     let mut first: Option<String> = None;
@@ -207,7 +209,7 @@ pub fn judge(s: &Shape, out: &ChildOutcome) -> Result<CaseResult, String> {
             let first = j["first"].as_str().unwrap_or("").to_string();
             let ended = j["ended"].as_bool().unwrap_or(false);
             let errors: Vec<String> = j["errors"].as_array().map(|a| a.iter().filter_map(|e| e.as_str().map(String::from)).collect()).unwrap_or_default();
-            if s.iterated && !ended && j["calls"].as_u64().unwrap_or(0) >= 40_000 && j["len"].as_u64().unwrap_or(0) < 38_000 {
+            if s.iterated && !ended && j["calls"].as_u64().unwrap_or(0) >= j["len"].as_u64().unwrap_or(0) + 10 {
                 return fail("mode=no-end".into(), format!("iteration did not reach end of input after {} calls on {} bytes", j["calls"], j["len"]));
             }
             if pure && s.close && depth <= 100 {
@@ -615,4 +617,17 @@ fn replay(_sub: &str, case: &Json) -> Option<CaseResult> {
         };
     }
     None
+}
+
+/// libFuzzer entry: raw bytes (mode even) or a generated input (mode odd).
+pub fn fuzz(f: &mut FuzzIn) -> Option<CaseResult> {
+    if f.mode % 2 == 0 {
+        let (q, input) = f.raw_q_input();
+        if input.len() > 512 {
+            return None;
+        }
+        return Some(check_bytes(&Bytes { input: input.to_vec(), q }, "gen:anybytes"));
+    }
+    let ((input, _), q) = f.draw(&(crate::gen_text::g_input(256), crate::gen_text::g_qopt_index()))?;
+    Some(check_bytes(&Bytes { input, q }, "gen:tokens"))
 }
